@@ -150,6 +150,15 @@ def memRG (decls : List Decl) (exact lenient : Bool) : Nat → Ty → JsVal → 
     | .ref name args => (match decls.find? (fun d => d.name == name) with
       | some (.alias _ ps body) => memRG decls exact lenient n (subst (ps.zip args) body) v
       | _ => none)
+    | .bi "Map" [k, x] => (match v with
+      | .map es => allO (fun (e : JsVal × JsVal) =>
+          match memRG decls exact lenient n k e.1, memRG decls exact lenient n x e.2 with
+          | some a, some b => some (a && b)
+          | _, _ => none) es
+      | _ => some false)
+    | .bi "Set" [x] => (match v with
+      | .set xs => allO (memRG decls exact lenient n x) xs
+      | _ => some false)
     | _ => none
 
 /-- the reference membership (missing required properties are missing) -/
